@@ -8,6 +8,7 @@ structure GridSt where
   lo : List Float := []
   w : List Float := []
   per : List Bool := []
+  data : List Float := []
 
 /-- C15 ops on one current grid. -/
 def c15 (g : GridSt) (ln : Nat) (t : List String) : Option (GridSt × List String) :=
@@ -42,6 +43,19 @@ def c15 (g : GridSt) (ln : Nat) (t : List String) : Option (GridSt × List Strin
     let all := enumerate g.nx ((ntOf 1 g.nx).toNat + 2) (g.nx.map (fun _ => 0))
     some (g, [out ln "count" (iTok all.length),
               out ln "addrs" (isTok (all.map (address g.mult g.nx)))])
+  | "g.fill" :: r => some ({ g with data := r.map fOfTok }, [])
+  | ["g.rt", kind] =>
+    let file : Cv.GridIO.GridFile Float := { nx := g.nx, lo := g.lo, w := g.w, per := g.per, mult := g.mult.toNat, data := g.data }
+    let back : Option (Cv.GridIO.GridFile Float) :=
+      match kind with
+      | "multicol" => Cv.GridIO.decodeMulticol file.mult (Cv.GridIO.encodeMulticol file)
+      | "raw" => Cv.GridIO.decodeRaw { file with data := [] } (Cv.GridIO.encodeRaw file)
+      | "rawbin" => Cv.GridIO.decodeRaw { file with data := [] } (Cv.GridIO.encodeRaw file)
+      | _ => Cv.GridIO.decodeRestart (file.per.map fun _ => false) file.mult (Cv.GridIO.encodeRestart file)
+    match back with
+    | none => some (g, [out ln "ok" (bTok false)])
+    | some b => some (g, [out ln "ok" (bTok true), out ln "nx" (isTok b.nx), out ln "lo" (fsTok b.lo), out ln "w" (fsTok b.w),
+                          out ln "per" (isTok (b.per.map fun x => if x then 1 else 0)), out ln "data" (fsTok b.data)])
   | "g.sizes" :: lo :: hi :: w :: _ =>
     let lo := fOfTok lo; let hi := fOfTok hi; let w := fOfTok w
     some (g, [out ln "nx" (iTok (nbinsRound lo hi w)), out ln "hi" (fTok (adjustedUpper lo hi w))])
